@@ -30,6 +30,9 @@ ASSUMPTIONS = [
     "a response that completed AFTER the deadline while the manager was not scheduled (both instants inside one stall) "
     "may be delivered as the response or as the timeout failure (LateResponseOK = TRUE in the trace configurations; "
     "tokio's Timeout polls the response first and delivers it; a timeout bounds the waiting of an unscheduled observer only from below)",
+    "NO-TIMEOUT configuration: a manager built with request timeout Duration::MAX or u64::MAX/2 s never times a request "
+    "out (NoTimeout = TRUE): every accepted request is answered by the client's own response; a request the client "
+    "never answers is then legitimately never answered",
     "after Shutdown / end of the request stream pending requests are dropped unanswered (outside 'while running')",
     "tokio's select! branch order is drawn by tokio itself and cannot be seeded; every recorded outcome is validated",
 ]
@@ -63,7 +66,10 @@ def delay_class(s, T):
 
 
 def due(s, T):
-    return s["at"] + (s["d"] if 0 <= s["d"] < T else T)
+    return s["at"] + (s["d"] if 0 <= s["d"] < T else T)     # T = NO_TIMEOUT: never-answered requests are never due
+
+
+NO_TIMEOUT = 2 ** 40      # "T" used to describe traces of a manager with a maximal request timeout
 
 
 def describe(seg, T):
@@ -113,15 +119,18 @@ def describe(seg, T):
             dc = delay_class(s, T)
             stalled = i in lag
             allowed = {"<T": ["resp"], "=T": ["resp", "timeout"], ">T": ["timeout"], "never": ["timeout"]}[dc]
+            if T == NO_TIMEOUT:
+                allowed = ["resp"] if s["d"] >= 0 else []
             if dc == ">T" and stalled and LATE_RESPONSE_OK and s["at"] + s["d"] <= line["at"]:
                 allowed = ["resp", "timeout"]
-            pre = "%s request c%d accepted at %d ms, client answers %s after %s (T=%d ms)%s" % (
-                s["k"], i, s["at"], s["res"], "never" if s["d"] < 0 else "%d ms" % s["d"], T,
+            pre = "%s request c%d accepted at %d ms, client answers %s after %s (T=%s)%s" % (
+                s["k"], i, s["at"], s["res"], "never" if s["d"] < 0 else "%d ms" % s["d"],
+                "none: request timeout Duration::MAX" if T == NO_TIMEOUT else "%d ms" % T,
                 ", manager not scheduled from before its due instant until %d ms" % lag[i] if stalled else "")
             if line["k"] not in allowed:
                 out.append(("emit:%s:%s:kind=%s%s" % (s["k"], dc, line["k"], ":stalled" if stalled else ""),
                             "%s: emitted a %s event (%s/%s) at %d ms, the spec allows only %s" % (
-                                pre, line["k"], line["st"], line["err"], line["at"], " or ".join(allowed))))
+                                pre, line["k"], line["st"], line["err"], line["at"], " or ".join(allowed) or "no event")))
             else:
                 when = s["at"] + (s["d"] if line["k"] == "resp" else T)
                 if (line["at"] < when) if stalled else (line["at"] != when):
@@ -149,7 +158,7 @@ def anomaly_of(line):
 
 
 def anomaly_sig(desc):
-    for key, sig in (("panicked", "panic"), ("did not return", "no-stop"), ("client order id", "foreign-cid"),
+    for key, sig in (("never answered", "manager-died:requests-never-answered"), ("panicked", "panic"), ("did not return", "no-stop"), ("client order id", "foreign-cid"),
                      ("strategy", "strategy"), ("answers no request", "foreign-event"), ("Reconnecting", "foreign-event"),
                      ("millisecond", "tool:sub-ms"), ("non-integral", "non-integral"), ("request channel closed", "stream-closed")):
         if key in desc:
@@ -158,7 +167,7 @@ def anomaly_sig(desc):
 
 
 # ----------------------------------------------------------------------------- validation
-def validate(ctx, trace_path, scenarios, label, big=False, expect=None):
+def validate(ctx, trace_path, scenarios, label, big=False, expect=None, nt=False):
     """TLC-validate one recorded trace; report every rejected line as a violation (or, for the
     self-test, return the set of rejected line numbers)."""
     lines = ctx.read_trace(trace_path)
@@ -175,13 +184,14 @@ def validate(ctx, trace_path, scenarios, label, big=False, expect=None):
                       {"scenario": scenarios[seg[0]["n"]], "trace": seg})
     if not keep:
         return set()
-    n, bad, truncated = ctx.tlc_trace("Trace_" + MODULE, "Trace_ExecManager_big.cfg" if big else "Trace_ExecManager.cfg", clean)
+    cfg = "Trace_ExecManager%s%s.cfg" % ("_big" if big else "", "_nt" if nt else "")
+    n, bad, truncated = ctx.tlc_trace("Trace_" + MODULE, cfg, clean)
     bad = sorted(set(bad))
     if expect is not None:
         return set(bad)
     for b in bad:
         seg = ctx.segment(keep, b)
-        for sig, desc in describe(seg, TIMEOUT_MS):
+        for sig, desc in describe(seg, NO_TIMEOUT if nt else TIMEOUT_MS):
             if sig.startswith("tool:"):
                 raise vlib.ToolError(desc)
             ctx.violation(sig, "%s [%s, scenario %d, line %d]" % (desc, label, seg[0]["n"], b),
@@ -256,10 +266,10 @@ def selftest(ctx, trace_path, stall_trace_path):
     vlib.log("self-test: %d corrupted traces rejected" % len(cases))
 
 
-def run_scenarios(ctx, scn_path, scns, label):
+def run_scenarios(ctx, scn_path, scns, label, nt=False):
     out = ctx.path("trace_%s.ndjson" % label)
     info = ctx.harness("c07", "run", "--scenarios", scn_path, "--out", out)
-    validate(ctx, out, scns, label)
+    validate(ctx, out, scns, label, nt=nt)
     ctx.cov["scenarios_replayed"] += len(scns)
     return out, info
 
@@ -283,11 +293,13 @@ def check(ctx):
     if ctx.quick:
         ctx.tlc_mc(MODULE, "MC_ExecManager.cfg", timeout=900, coverage=False)
         ctx.tlc_mc(MODULE, "MC_ExecManager_live.cfg", timeout=900)
+        ctx.tlc_mc(MODULE, "MC_ExecManager_notimeout.cfg", timeout=900, ignore_uncovered=("TimeoutFires",))
     else:
         ctx.tlc_mc(MODULE, "MC_ExecManager_thorough.cfg", timeout=1800, coverage=False)
         ctx.tlc_mc(MODULE, "MC_ExecManager_thorough2.cfg", timeout=1800, coverage=False)
         ctx.tlc_mc(MODULE, "MC_ExecManager_live.cfg", timeout=900)
         ctx.tlc_mc(MODULE, "MC_ExecManager_live_thorough.cfg", timeout=1800, coverage=False)
+        ctx.tlc_mc(MODULE, "MC_ExecManager_notimeout.cfg", timeout=900, ignore_uncovered=("TimeoutFires",))
     # the closing sentence of C07 ("an order the engine shows as in flight is always eventually
     # resolved") is a liveness property of the COMPOSITION engine + request channel + execution
     # manager + account feed (spec/BarterSystem.tla, weak fairness of manager / answer race / engine
@@ -305,6 +317,22 @@ def check(ctx):
         raise vlib.ToolError("stall scenarios passed only %s due instants" % info_s.get("requests_due_inside_a_stall"))
     if not ctx.violations:
         selftest(ctx, out_t, out_s)      # needs accepted traces to corrupt
+    # NO-TIMEOUT batches: the manager is built with request timeout Duration::MAX ("max") and
+    # u64::MAX/2 seconds ("huge") - the spec's NoTimeout: only the client's own response may answer,
+    # also after ~11 days of virtual time
+    _, scn_n = ctx.tlc_gen("Gen_" + MODULE, "GenN_ExecManager.cfg", "notimeout_bare.ndjson")
+    scn_n = [dict(s, tmode=m) for s in scn_n for m in ("max", "huge")]
+    p_n = ctx.path("notimeout.ndjson")
+    with open(p_n, "w") as f:
+        for s_ in scn_n:
+            f.write(json.dumps(s_) + "\n")
+    _, info_n = run_scenarios(ctx, p_n, scn_n, "notimeout", nt=True)
+    if info_n.get("no_timeout_scenarios") != len(scn_n):
+        raise vlib.ToolError("no-timeout scenarios were not run with a maximal request timeout")
+    if not ctx.violations and not info_n.get("no_timeout_responses_after_long_delay"):
+        raise vlib.ToolError("no-timeout scenarios delivered no response after a long delay")
+    ctx.cov["no_timeout"] = {k: info_n.get(k) for k in ("no_timeout_scenarios", "responses", "timeout_failures",
+                                                        "no_timeout_responses_after_long_delay")}
     if not ctx.quick:
         p_3, scn_3 = ctx.tlc_gen("Gen_" + MODULE, "GenT_ExecManager_thorough.cfg", "batches3.ndjson", timeout=900)
         run_scenarios(ctx, p_3, scn_3, "batches3")
@@ -312,6 +340,7 @@ def check(ctx):
     p_r, scn_r = ctx.tlc_gen("Gen_" + MODULE, "GenR_ExecManager.cfg", "simulated.ndjson", simulate=(nb, 8), timeout=900)
     run_scenarios(ctx, p_r, scn_r, "simulated")
     ctx.sample({"kind": "TLC batch (exhaustive)", "scenario": scn_t[len(scn_t) // 2]})
+    ctx.sample({"kind": "TLC batch (request timeout Duration::MAX)", "scenario": scn_n[len(scn_n) // 2]})
     ctx.sample({"kind": "TLC batch (stalled executor)", "scenario": scn_s[len(scn_s) // 2]})
     ctx.sample({"kind": "TLC batch (simulated, with shutdown)", "scenario": next((s for s in scn_r if s["shut"] >= 0), scn_r[0])})
     # seeded random batches of up to 200 outstanding requests, several seeds / runs (each run is a
@@ -342,6 +371,16 @@ def check(ctx):
     validate(ctx, out, all_scns, "random", big=True)
     ctx.cov["scenarios_replayed"] += len(all_scns)
     ctx.cov["responses_exactly_at_deadline"] = ties
+    if not ctx.quick:
+        # random batches of up to 200 outstanding requests on a manager without timeout
+        for k, mode in enumerate(("max", "huge")):
+            out = ctx.path("trace_random_nt_%d.ndjson" % k)
+            scn = ctx.path("random_nt_%d.ndjson" % k)
+            ctx.harness("c07", "random", "--seed", ctx.seed * 1000 + 500 + k, "--batches", 8, "--max", 200, "--timeout", TIMEOUT_MS,
+                        "--tmode", mode, "--out", out, "--scn-out", scn)
+            scns = ctx.read_trace(scn)
+            validate(ctx, out, scns, "random/" + mode, big=True, nt=True)
+            ctx.cov["scenarios_replayed"] += len(scns)
     ctx.cov["random_requests_due_inside_a_stall"] = stalled
     if stalled == 0:
         raise vlib.ToolError("random driver produced no stalled requests")
@@ -361,5 +400,5 @@ def replay(ctx, rp):
     out = ctx.path("replay_trace.ndjson")
     ctx.harness("c07", "run", "--scenarios", scn, "--out", out)
     big = max([r["id"] for r in rp["scenario"]["reqs"]] + [0]) > 4
-    validate(ctx, out, [rp["scenario"]] * reps, "replay", big=big)
+    validate(ctx, out, [rp["scenario"]] * reps, "replay", big=big, nt=rp["scenario"].get("tmode", "finite") != "finite")
     return ctx.finish(write_evidence=False)
